@@ -762,7 +762,13 @@ func (m *Machine) deliver(o openRun, out Outcome) int {
 		// fail-fast is looked up in the current definitions when the failure is reported
 		if def, ok := m.w.Defs.Pipelines[o.j.Pipeline]; ok && !def.ContinueRunningTasksAfterFailure {
 			m.w.mu.Lock()
-			o.j.ExpectCancelCalls++
+			if o.j.MaybePurged {
+				// the job may have been purged by a save while its pipeline was undefined: the runner may
+				// no longer know it, so the stop request may or may not come
+				o.j.CancelPermitted = true
+			} else {
+				o.j.ExpectCancelCalls++
+			}
 			o.j.FailFast = true
 			m.w.mu.Unlock()
 			m.w.Stats.hit("fail-fast")
